@@ -295,12 +295,8 @@ fn process_dir(
             };
             let mut matcher_io = matchers::MatcherIO::new(deps);
 
-            // (an entry without a parent, "/", is run from itself: it counts as its own directory)
-            let new_dir = entry
-                .path()
-                .parent()
-                .or(Some(entry.path()))
-                .map(|x| x.to_path_buf());
+            // (the directory -execdir runs in: "/" counts as its own directory)
+            let new_dir = Some(matchers::exec::split_for_execdir(entry.path()).0);
             if new_dir != current_dir {
                 if let Some(dir) = current_dir.take() {
                     matcher.finished_dir(dir.as_path(), &mut matcher_io);
